@@ -154,6 +154,36 @@ theorem place_month (tF : Int) (o s src tgt F : Nat) (g : Guard src tgt F)
   push_cast
   rfl
 
+/-- the slot of a source timestamp, year-type target; no interval guard needed -/
+theorem calcSlot_year_eq (tF : Int) (o s src tgt : Nat) (hty : itype (tgt : Int) = .year)
+    (hb : (o + s * src) / tgt < 65536) :
+    (⟨src, tgt, tF + o, tF⟩ : R).calcSlot ((⟨src, tgt, tF + o, tF⟩ : R).getTimestamp s) =
+      (((o + s * src) / tgt : Nat) : Int) := by
+  set r : R := ⟨src, tgt, tF + o, tF⟩ with hr
+  have e1 : r.getTimestamp s - tF = ((o + s * src : Nat) : Int) := by
+    simp only [r, R.getTimestamp]; push_cast; ring
+  rw [R.calcSlot, show itype r.target = .year from hty]
+  show u16 (Int.tdiv (r.getTimestamp s - tF) (tgt : Int)) = _
+  rw [e1, tdiv_cast, u16_of_lt _ hb]
+
+/-- the slot of a source timestamp, month-type target; no interval guard needed -/
+theorem calcSlot_month_eq (tF : Int) (o s src tgt : Nat) (hty : itype (tgt : Int) = .month)
+    (hday : o + s * src < 86400000) :
+    (⟨src, tgt, tF + o, tF⟩ : R).calcSlot ((⟨src, tgt, tF + o, tF⟩ : R).getTimestamp s) =
+      (((o + s * src) / tgt : Nat) : Int) := by
+  have hm := (itype_month_iff tgt).1 hty
+  have htgt' : 300000 ≤ tgt := by omega
+  have hb : (o + s * src) / tgt < 65536 := by
+    have h1 : (o + s * src) / tgt ≤ (o + s * src) / 300000 := Nat.div_le_div_left htgt' (by norm_num)
+    omega
+  set r : R := ⟨src, tgt, tF + o, tF⟩ with hr
+  have e1 : r.getTimestamp s - tF = ((o + s * src : Nat) : Int) := by
+    simp only [r, R.getTimestamp]; push_cast; ring
+  have hd : oneDay = ((86400000 : Nat) : Int) := rfl
+  rw [R.calcSlot, show itype r.target = .month from hty]
+  show u16 (Int.tdiv (Int.tmod (r.getTimestamp s - tF) oneDay) (tgt : Int)) = _
+  rw [e1, hd, tmod_cast, Nat.mod_eq_of_lt hday, tdiv_cast, u16_of_lt _ hb]
+
 /-- the time window of a slot: `x / tgt` is the slot whose window contains offset `x` -/
 theorem slot_window (x tgt : Nat) (htgt : 0 < tgt) :
     tgt * (x / tgt) ≤ x ∧ x < tgt * (x / tgt + 1) := by
@@ -194,5 +224,68 @@ theorem locate_year (c : Cal) (src tgt D h : Int) (hc : c.OkAt D) (hs : itype sr
     · unfold oneHour; omega
     · unfold oneHour; omega
   simp only [locate, hs, ht, calcFamilyStartTime, calcSegmentTime, calcFamily, hd, dayNo_mul, hc.inYear]
+
+/-- the facts about a day-type source family and a month-type target shared by the two placements -/
+theorem month_setup (c : Cal) (D h src tgt : Nat) (hc : c.OkAt D) (hh : h < 24)
+    (hst : itype (src : Int) = .day) (htt : itype (tgt : Int) = .month) (sEnd : Nat) (hend : sEnd * src < 3600000) :
+    mkR c src tgt ((D : Int) * oneDay) h = ⟨src, tgt, (D : Int) * oneDay + ((h * 3600000 : Nat) : Int), (D : Int) * oneDay⟩
+    ∧ (∀ s, s ≤ sEnd → (mkR c src tgt ((D : Int) * oneDay) h).calcSlot
+          ((mkR c src tgt ((D : Int) * oneDay) h).getTimestamp s) = (((h * 3600000 + s * src) / tgt : Nat) : Int))
+    ∧ (∀ s t, s ≤ t → t ≤ sEnd → (h * 3600000 + s * src) / tgt ≤ (h * 3600000 + t * src) / tgt)
+    ∧ (h * 3600000 + sEnd * src) / tgt < 65536 := by
+  have hloc := locate_month c src tgt D h hc hst htt ⟨by omega, by omega⟩
+  have hr : mkR c src tgt ((D : Int) * oneDay) h =
+      ⟨src, tgt, (D : Int) * oneDay + ((h * 3600000 : Nat) : Int), (D : Int) * oneDay⟩ := by
+    simp only [mkR, hloc]; congr 1
+  have hm := (itype_month_iff tgt).1 htt
+  have hlt : ∀ s, s ≤ sEnd → s * src < 3600000 := fun s hs =>
+    Nat.lt_of_le_of_lt (Nat.mul_le_mul_right src hs) hend
+  refine ⟨hr, ?_, ?_, ?_⟩
+  · intro s hs
+    rw [hr]
+    exact calcSlot_month_eq _ _ s src tgt htt (by have := hlt s hs; omega)
+  · intro s t hst' _
+    exact Nat.div_le_div_right (by have := Nat.mul_le_mul_right src hst'; omega)
+  · have h1 : (h * 3600000 + sEnd * src) / tgt ≤ (h * 3600000 + sEnd * src) / 300000 :=
+      Nat.div_le_div_left (by omega) (by norm_num)
+    have := hlt sEnd (Nat.le_refl _)
+    omega
+
+/-- the same for a year-type target; `o` = offset of the source family in the month -/
+theorem year_setup (c : Cal) (D h src tgt : Nat) (hc : c.OkAt D) (hh : h < 24)
+    (hst : itype (src : Int) = .day) (htt : itype (tgt : Int) = .year) (sEnd : Nat) (hend : sEnd * src < 3600000) :
+    ∃ o : Nat, (3600000 : Nat) ∣ o ∧
+    mkR c src tgt ((D : Int) * oneDay) h = ⟨src, tgt, c.monthStart D * oneDay + ((o : Nat) : Int), c.monthStart D * oneDay⟩
+    ∧ (∀ s, s ≤ sEnd → (mkR c src tgt ((D : Int) * oneDay) h).calcSlot
+          ((mkR c src tgt ((D : Int) * oneDay) h).getTimestamp s) = (((o + s * src) / tgt : Nat) : Int))
+    ∧ (∀ s t, s ≤ t → t ≤ sEnd → (o + s * src) / tgt ≤ (o + t * src) / tgt)
+    ∧ (∀ s, s ≤ sEnd → (o + s * src) / tgt < 65536) := by
+  have hloc := locate_year c src tgt D h hc hst htt ⟨by omega, by omega⟩
+  obtain ⟨k, hk⟩ : ∃ k : Nat, (D : Int) - c.monthStart D = k :=
+    ⟨((D : Int) - c.monthStart D).toNat, by have := hc.le; omega⟩
+  have hk32 : k < 32 := by have := hc.span; omega
+  have htgt36 : 3600000 ≤ tgt := by have := (itype_year_iff tgt).1 htt; omega
+  refine ⟨k * 86400000 + h * 3600000, ⟨k * 24 + h, by omega⟩, ?_⟩
+  set o : Nat := k * 86400000 + h * 3600000 with ho
+  have hr : mkR c src tgt ((D : Int) * oneDay) h =
+      ⟨src, tgt, c.monthStart D * oneDay + ((o : Nat) : Int), c.monthStart D * oneDay⟩ := by
+    simp only [mkR, hloc]
+    congr 1
+    simp only [ho, oneDay, oneHour]
+    push_cast
+    omega
+  have hlt : ∀ s, s ≤ sEnd → s * src < 3600000 := fun s hs =>
+    Nat.lt_of_le_of_lt (Nat.mul_le_mul_right src hs) hend
+  have hb : ∀ s, s ≤ sEnd → (o + s * src) / tgt < 65536 := by
+    intro s hs
+    have h1 : (o + s * src) / tgt ≤ (o + s * src) / 3600000 := Nat.div_le_div_left htgt36 (by norm_num)
+    have := hlt s hs
+    omega
+  refine ⟨hr, ?_, ?_, hb⟩
+  · intro s hs
+    rw [hr]
+    exact calcSlot_year_eq _ o s src tgt htt (hb s hs)
+  · intro s t hst' _
+    exact Nat.div_le_div_right (by have := Nat.mul_le_mul_right src hst'; omega)
 
 end LinVerif.Lemmas.C04
